@@ -11,7 +11,7 @@ import nixio
 from nixio.exceptions import DuplicateName
 
 NAMES = ["p0", "p1", "äö", "sections", "x y", "n5", "n6", "n7"]
-STRS = ["", "a", "äöü", "x" * 40, "0", "True", "1.5", "日本"]
+STRS = ["", "a", "äöü", "x" * 40, "0", "True", "1.5", "日本", "e\u0301", "\u00e9", "\u212b", "\u00c5", "a ", "A"]
 TY = {"bool": nixio.DataType.Bool, "int": nixio.DataType.Int64, "float": nixio.DataType.Double, "str": nixio.DataType.String}
 
 
@@ -61,7 +61,7 @@ def enc_read(v):
     if isinstance(v, (float, np.floating)):
         return [2, struct.unpack("<Q", struct.pack("<d", float(v)))[0]]
     if isinstance(v, str):
-        return [3, STRS.index(v)]
+        return [3, STRS.index(v) if v in STRS else 99]
     return [9, 0]
 
 
